@@ -66,25 +66,38 @@ def concat_pieces_explicit(a, ref, point):
     N = init[2]
     cur = {}
     pieces = []
+    def lin_ty(t):
+        """lengths of whole local arrays of the same type are the same number (two digests of one KDF)"""
+        d = lin(t)
+        if d is None:
+            return None
+        out = {}
+        for k, x in d.items():
+            if isinstance(k, tuple) and k[0] == 'len' and k[1][0] == 'addr' and k[1][1][0] == 'local' and not k[1][2]:
+                ty = a.body.local_ty(k[1][1][1])
+                if ty.startswith('generic_array::GenericArray<') or (ty.startswith('[') and ty.endswith(']') and ';' in ty):
+                    k = ('tylen', ty)
+            out[k] = out.get(k, 0) + x
+        return {k: x for k, x in out.items() if x}
     for (site, wpath, desc, dom) in v[3]:
         if not dom or wpath is None or len(wpath) != 1:
             return None, 'writer not on every path / unknown target', None
         e = wpath[0]
         if desc[0] == 'store' and e[0] == 'i':
-            start = lin(e[1])
+            start = lin_ty(e[1])
             if start is None:
                 return None, 'non-linear index', None
             end = dict(start)
             end[1] = end.get(1, 0) + 1
             piece = ('addr', ('cell', ('agg', 'array', 'array', (desc[1],), ('0',))), (), False)
         elif desc[0] == 'call' and desc[1].endswith('copy_from_slice') and e[0] == 'slice' and len(desc[2]) == 2:
-            start, end = lin(e[1]), lin(e[2]) if e[2] is not None else None
+            start, end = lin_ty(e[1]), lin_ty(e[2]) if e[2] is not None else None
             if start is None or end is None:
                 return None, 'non-linear range', None
             piece = desc[2][1]
             ln = {k: end.get(k, 0) - start.get(k, 0) for k in set(end) | set(start)}
             ln = {k: x for k, x in ln.items() if x}
-            if ln != {('len', strip_sites(piece)): 1}:
+            if ln != lin_ty(('len', piece)):
                 return None, 'range length is not the source length', None
         else:
             return None, 'writer is neither a byte store nor a copy into a range', None
@@ -92,7 +105,7 @@ def concat_pieces_explicit(a, ref, point):
             return None, 'pieces are not contiguous', None
         cur = {k: x for k, x in end.items() if x}
         pieces.append((piece, site))
-    total = lin(path[0][2])
+    total = lin_ty(path[0][2])
     if total is None or {k: x for k, x in total.items() if x} != cur or not pieces:
         return None, 'the slice does not end where the last piece ends', None
     return pieces, None, N
